@@ -6,7 +6,7 @@ CHECK = Check(
         Stream("static", drv="c16", sub="c16",
                nontrivial=lambda tags, inp: not tags.startswith(("typename", "unmarshal", "set", "setbuf", "loop")),
                descr="one StaticInspector method call per case"),
-        Stream("strconv", drv="strconv", sub="strconv", descr="Base/Strconv.v against strconv (operand parsing)"),
+        Stream("strconv", drv="strconv", sub="strconv", descr="Base/Strconv.v against strconv (operand parsing; fixed texts, every spelling of chosen numbers, random texts)"),
         Stream("floats", drv="floats", sub="floats", descr="Base/Floats.v against strconv.ParseFloat / float64 arithmetic"),
     ],
     rule=("every method of StaticInspector on operands of 13 scalar kinds (bool, 10 integer kinds, float32, float64) + string + []byte, "
@@ -14,7 +14,11 @@ CHECK = Check(
           "pointer, named int / []byte, uintptr, complex) and a typed nil foreign pointer. Enumerated: Get/GetTo/Copy/Length/Capacity/"
           "Reset on every operand; Compare on every operand x 9 operators (the 6 comparisons + OpUnk/OpInc/OpDec) x parsable and "
           "unparsable operand texts of the operand's family (boundaries, base prefixes, underscores, overflow, garbage, the value itself "
-          "and its neighbours) x result preset false/true; DeepEqual on every ordered pair of operands, both argument orders per case; "
+          "and its neighbours) x result preset false/true; every integer kind by value and by pointer x every base-0 spelling of its own "
+          "value (Gen/Spellings.v: leading zero = octal, zero-padded decimal such as 015/019, 0x/0o/0b in both cases, underscores in "
+          "legal and illegal places, the three signs, blanks, zero padding to 18/19/20 characters, one digit more; values 15, +-19 and "
+          "18/19/20-digit numbers around the 64-bit bounds; ==, <, >= and stale results in the quick tier, every operator in the "
+          "thorough one); DeepEqual on every ordered pair of operands, both argument orders per case; "
           "CopyTo on every source x destinations (right pointer, nil pointer, by value, wrong kind, foreign) x buffer capacities. "
           "Values: kind boundaries (min, 0, 1, max; floats 0, 1, 1.4, 1.0005, NaN, Inf, 2^63, -1.4; texts empty/short), more in the "
           "thorough tier, plus seeded random values (integers over the full range, floats across 2^63/2^64 and the tolerance, related "
